@@ -6,6 +6,9 @@ ROOT = os.path.dirname(os.path.dirname(os.path.abspath(__file__)))
 
 # id -> (level, technique, level text, level note, design ref)
 CHECKS = {
+    "C16": ("exploration", "runtime monitoring: model-based monitor of transform sequences — each FocusedTransform result, callback argument, error outcome, set of blocks written and the graph reloaded from the new root are compared with a reference functional update over the abstract graph; the input tree is re-read after every step; WalkTransforming results compared with the reference selector walk's matches on link-free trees; a probe records the walking transform across a link",
+            "Held on the transform sequences observed (existing/new/append/delete targets, through links, with unavailable blocks) apart from one known finding (WalkTransforming inlines linked blocks). Sampling.",
+            "Trusted: the reference update in internal/props/c16.go (documented FocusedTransform semantics), internal/ref/sel, internal/ref/cbor.", "DESIGN.md §2 C16"),
     "C07": ("exploration", "runtime monitoring: differential oracle — visits (path, node value, reason) and link loads recorded at the callback and storage boundaries of WalkAdv/WalkMatching are compared with a reference denotational walk of the selector AST over the abstract graph; each selector compiled three ways (builder, spec tree, DAG-JSON text)",
             "Held on the (graph, selector) pairs observed, for all clause kinds incl. recursion limits, edges, stop-at and subset matchers. Sampling; the oracle is a model written for this task (see level_note).",
             "Trusted: internal/ref/sel (specified semantics; repository doc comments where the spec is silent). A stricter-than-specified model would show as a false alarm; every disagreement seen on the unchanged tree was examined (DESIGN §4).", "DESIGN.md §2 C07"),
